@@ -445,7 +445,12 @@ def build(plan: dict):
         if via == "builder_multi":
             states = [initial_state(plan, c) for c in range(C)]
             stacked = jax.tree_util.tree_map(lambda *xs: jnp.stack(xs), *states)
-            b.set_initial_values(stacked, multiple_chains=True)
+            try:
+                b.set_initial_values(stacked, multiple_chains=True)
+            except Exception as e:
+                from simkit.core import SutError
+
+                raise SutError(f"set_initial_values(states, multiple_chains=True) raised {type(e).__name__}: {e}")
         else:
             b.set_initial_values(initial_state(plan, 0))
         for ker in kernels:
@@ -494,6 +499,17 @@ def collect(results) -> dict:
         }
     else:
         out["gq"] = None
+    try:
+        out["post_samples"] = np_tree(results.get_posterior_samples())
+    except Exception as e:
+        out["post_samples"] = f"exc:{type(e).__name__}"
+    try:
+        out["post_infos"] = {
+            k: {f: np.asarray(v) for f, v in vars(ti).items()}
+            for k, ti in results.get_posterior_transition_infos().items()
+        }
+    except Exception as e:
+        out["post_infos"] = f"exc:{type(e).__name__}"
     return out
 
 
@@ -526,8 +542,8 @@ def drive(engine, plan: dict, log=None):
             try:
                 s = r.get_samples()
                 n_stored = int(np.asarray(next(iter(s.values()))).shape[1])
-            except Exception as e:  # no samples yet
-                n_stored = f"exc:{type(e).__name__}"
+            except Exception:  # no samples yet
+                n_stored = "none"
             events.append(("results", n_stored))
         if log is not None:
             log.add("op", n, op, events[-1])
@@ -694,7 +710,7 @@ class RefEngine:
                 assert ptr >= len(configs)
                 events.append(("next_empty", "raised"))
             elif kind == "results":
-                events.append(("results", len(stored) if stored else "exc:RuntimeError"))
+                events.append(("results", len(stored) if stored else "none"))
         return dict(trans=trans, stored=stored, tunings=tunings, events=events,
                     final_h=h, final_cnt=cnt, configs=configs, sampled_epochs=ptr)
 
